@@ -120,7 +120,37 @@ func genC18(t *rapid.T) *c18Case {
 		}
 		c.Requests = reqs
 	}
+	// steered shape: a wildcard component below a followed link, matching a link
+	if rapid.IntRange(0, 7).Draw(t, "wildbelowlink") == 0 {
+		c.Tree = &h.Tree{Nodes: []h.Node{
+			{Path: "cur", Kind: h.KSymlink, Perm: 0o777, Target: rapid.SampledFrom([]string{"pkg", "/pkg", "./pkg"}).Draw(t, "wb.cur")},
+			{Path: "pkg", Kind: h.KDir, Perm: 0o755},
+			{Path: "pkg/f1", Kind: h.KSymlink, Perm: 0o777, Target: rapid.SampledFrom([]string{"../store/data", "/store/data"}).Draw(t, "wb.f1")},
+			{Path: "pkg/f2", Kind: h.KFile, Perm: 0o644, Size: 3, Seed: 5},
+			{Path: "pkg/g", Kind: h.KFile, Perm: 0o644, Size: 3, Seed: 6},
+			{Path: "store", Kind: h.KDir, Perm: 0o755},
+			{Path: "store/data", Kind: h.KFile, Perm: 0o644, Size: 9, Seed: 7},
+			{Path: "store/other", Kind: h.KFile, Perm: 0o644, Size: 9, Seed: 8},
+		}}
+		c.Tree.Normalize()
+		c.Requests = []string{rapid.SampledFrom([]string{"cur/f*", "cur/f?", "/cur/*1", "cur/[ef]1"}).Draw(t, "wb.req")}
+	}
+	// steered shape: one request that reads a few hundred links (no chain longer than
+	// one hop): budgets and guards must count per chain, not per call
+	if rapid.IntRange(0, 1999).Draw(t, "manylinks") == 0 {
+		n := rapid.SampledFrom([]int{256, 260, 300}).Draw(t, "ml.n")
+		tr := &h.Tree{Nodes: []h.Node{{Path: "bin", Kind: h.KDir, Perm: 0o755}, {Path: "lib", Kind: h.KDir, Perm: 0o755}, {Path: "lib/t", Kind: h.KFile, Perm: 0o644, Size: 2, Seed: 9}}}
+		for i := 0; i < n; i++ {
+			tr.Nodes = append(tr.Nodes, h.Node{Path: fmt.Sprintf("bin/m%03d", i), Kind: h.KSymlink, Perm: 0o777, Target: "../lib/t"})
+		}
+		tr.Normalize()
+		c.Tree = tr
+		c.Requests = []string{"bin/*"}
+	}
 	c.MemSrc = rapid.Bool().Draw(t, "memsrc")
+	if len(c.Tree.Nodes) > 100 {
+		c.MemSrc = false // the synthetic source re-indexes its tree on every Walk
+	}
 	return c
 }
 
@@ -149,6 +179,22 @@ func expandRequest(tr *h.Tree, req string) []string {
 	}
 	var out []string
 	rc := strings.Split(req, "/")
+	// a wildcard in the last component only: the directory part is resolved like any
+	// path (through links), the pattern is matched against the names in that directory
+	if dirpart := strings.Join(rc[:len(rc)-1], "/"); len(rc) > 1 && !hasGlob(dirpart) {
+		if r := h.ResolveIn(tr, dirpart, true); r.Exists {
+			if d := tr.Index()[r.Final]; r.Final == "" || (d != nil && d.Kind == h.KDir) {
+				for _, n := range tr.Nodes {
+					if path.Dir(n.Path) == r.Final || (r.Final == "" && !strings.Contains(n.Path, "/")) {
+						if m, err := filepath.Match(rc[len(rc)-1], path.Base(n.Path)); err == nil && m {
+							out = append(out, dirpart+"/"+path.Base(n.Path))
+						}
+					}
+				}
+				return out
+			}
+		}
+	}
 	for _, n := range tr.Nodes {
 		nc := strings.Split(n.Path, "/")
 		if len(nc) != len(rc) {
